@@ -9,22 +9,20 @@ from props import c13_mpf as base
 F = base.F; fs = base.fs; both = base.both; PRECS = base.PRECS
 B = 1 << 64; M = B - 1
 
-LEAN_MODULES = []
-THEOREMS_FINAL = ["Mpir.MpfCmp." + t for t in """
-    cmp_spec cmp_antisymm sgn_spec eq_spec eq_refl eq_wraps reldiff_zero reldiff_spec
+LEAN_MODULES = ["MpirProofs.Props.C13_cmp"]
+THEOREMS = ["Mpir.MpfCmp." + t for t in """
+    cmp_spec cmp_antisymm sgn_spec eq_spec eq_refl eq_wrapped_before_b2b40d5 reldiff_zero reldiff_spec
 """.split()]
-THEOREMS = []
-TRUSTED = ["hand-written model lean/Mpir/Model/MpfCmp.lean of mpf/eq.c (incl. the unsigned wrap of n_bits + cu), mpf/reldiff.c and the "
-           "mpf_sgn macro — tied by correspondence on every run (ops mpf_eq13, mpf_reldiff, mpf_sgn13; mpf_cmp13 for Mpir.Mpf.cmp)"]
-ASSUMPTIONS = ["mpf_eq: the theorem covers n_bits <= 2^64 - 127; above, eq.c:77 wraps and answers 1 for unequal operands "
-               "(finding reported; theorem eq_wraps exhibits it on the model, op lines with n_bits >= 2^64-63 tie the model to the C there); "
-               "2^24 < n_bits < 2^64 - 63 is not run (eq.c:90 iterates about n_bits/64 times over indices below the operands)",
-               "mpf_reldiff: the bound proved is |r - |x-y|/|x|·sign| < (eps(prec) + eps(prec+|x|) + product)·|exact| (two roundings), "
-               "not 2^(2-p): the property text does not list mpf_reldiff among the 2^(2-p) functions"]
+TRUSTED = ["hand-written model lean/Mpir/Model/MpfCmp.lean of mpf/eq.c (mp_bitcnt_t arithmetic mod 2^64, the n_bits clamp of b2b40d5), "
+           "mpf/reldiff.c and the mpf_sgn macro — tied by correspondence on every run (ops mpf_eq13, mpf_reldiff, mpf_sgn13; mpf_cmp13 for Mpir.Mpf.cmp)"]
+ASSUMPTIONS = ["mpf_eq: |size| < 2^31 limbs (`_mp_size` is an int) so that 64*max(usize,vsize) + 126 does not wrap; every n_bits of an mp_bitcnt_t",
+               "mpf_reldiff: the bound proved is |r - |x-y|/x| < (eps(prec) + eps(prec+|x|) + product)*|exact| (two roundings), "
+               "not 2^(2-p): the property text does not list mpf_reldiff among the 2^(2-p) functions; x = 0 gives 1 or 0 (reldiff.c:33-36)",
+               "mpf_cmp_ui/_si/_d/_z, mpf_get_*/fits_*/integer_p: proved in C11 (Model/Conv.lean, operands of any length); not repeated here"]
 RULE = ("mpf_cmp13: prefix pairs (c | tail) vs c, c vs c|0..0|x, equal values with different limb counts, flipped single bits, adjacent and "
         "huge exponent gaps, raw lengths prec+2.., x all sign/zero combinations x both argument orders, exact and predicate form; "
         "mpf_eq13: first differing bit at depth t from the leading bit (inside the shorter operand, in its zero extension, across limb "
-        "boundaries) with n_bits in {0,1,t-1,t,t+1,t+2,64k,64k±1}, different clz / exponent / sign, zeros, n_bits >= 2^64-63 (wrap); "
+        "boundaries) with n_bits in {0,1,t-1,t,t+1,t+2,64k,64k±1}, different clz / exponent / sign, zeros, n_bits near 2^64 and random 64-bit (clamp); "
         "mpf_reldiff: destination precisions {2,3,4,5,17}, alias modes 0-4, nearly equal operands, prefixes, zero operands, raw lengths; "
         "mpf_sgn13 on every operand class")
 
@@ -88,13 +86,13 @@ def gen_eq(rng, tier):
         vl[pos // 64] ^= 1 << (pos % 64)
         while vl and vl[0] == 0 and rng.random() < 0.5: vl = vl[1:]           # v need not keep its low zero limbs
         for nb in {0, 1, t - 1, t, t + 1, t + 2, 64 * ((t + c) // 64) - c, 64 * ((t + c) // 64) - c + 1, 64 * ((t + c) // 64 + 1) - c,
-                   rng.randrange(0, L + 200), rng.choice([W - 1, W - 63, W - 62, max(W - 1 - c, W - 63), max(W - c, W - 63) if c else W - 1])}:
+                   rng.randrange(0, L + 200), rng.choice([W - 1, W - 63, W - 62, W - 1 - c, W - c - 63, W - c - 64, W - 125, W - 127, 1 << 40, 1 << 63, rng.getrandbits(64)])}:
             if nb < 0: continue
             a, b = (F(opnd(rng, ul, e, neg)), F(opnd(rng, vl, e, neg)))
             if rng.random() < 0.5: a, b = b, a
             yield "mpf_eq13 %s %s %x" % (a, b, nb)
         # equal values written with different limb counts; truncations (prefixes)
-        nb = rng.choice([0, 1, L - 1, L, L + 1, L + 64, 64 * n, rng.randrange(0, L + 200), (1 << 24), W - 1])
+        nb = rng.choice([0, 1, L - 1, L, L + 1, L + 64, 64 * n, 64 * n + 1, 64 * n - 1, rng.randrange(0, L + 200), (1 << 24), W - 1, W - 124, rng.getrandbits(64)])
         yield "mpf_eq13 %s %s %x" % (F(opnd(rng, ul, e, neg)), F(opnd(rng, [0] * rng.randrange(1, 3) + ul, e, neg)), nb)
         if n > 1:
             cut = rng.randrange(1, n)
